@@ -55,13 +55,13 @@ CHECKS = {
             "stop() success implies every task accepted before it began has run; later submissions are rejected; the state only moves forward; a waiter on a task that never runs is released with an error right after stop instead of sleeping out its own timeout.",
             "One submitting thread at a time at runtime level.", "DESIGN.md §3 C12", "wl-core/loops+pool"),
     "C13": ("exploration", "runtime monitoring: start/end stamps + join outcomes around a cancelled target in each phase; cancel:before_signal pause hook forces the lookup/signal window",
-            "Cancelling a queued / running / suspended task must leave every other task untouched (all start, end and join with their own value), a queued target never starts and its waiter is settled. The lookup-then-signal window is forced deterministically; a late cancel of a detached target that has already finished must not touch the task its former worker serves now.",
+            "Cancelling a queued / running / suspended task must leave every other task untouched (all start, end and join with their own value), a queued target never starts and its waiter is settled. The lookup-then-signal window is forced deterministically; a late cancel of a detached target that has already finished must not touch the task its former worker serves now; with two event loops a task cancelled while queued and taken over by the other loop must still settle the waiter blocked on the loop it was submitted to.",
             "Single loop, single submitting thread. One known finding (signal lands on another coroutine).", "DESIGN.md §3 C13", "wl-core/loops"),
     "C14": ("exploration", "runtime monitoring: elapsed-time oracle on CLOCK_MONOTONIC (min of 3 attempts) + native-call differential for invalid arguments, each case able to kill its own process",
             "Every hooked timed wait x context x duration (incl. unit boundaries, 4.4 s overflow probes, maximal values) must not return early and must return within a slack derived from the scheduling noise measured around the case (50 ms + 20x the overshoot of a native 1 ms sleep, more for sliced waits; overloaded machine = inconclusive) on the fastest of three attempts; waits issued right after a recv with its own timeout was completed by data; invalid arguments must answer like the native call. A few scenarios run through the real LD_PRELOAD interposition (wl-hook).",
             "Core entry points with real libc underneath for most cases; the dylib's interposed symbols forward to them and are exercised by the wl-hook scenarios.", "DESIGN.md §3 C14", "wl-core/sys"),
     "C15": ("exploration", "runtime monitoring: completion-time ratio oracle (N sleepers finish in ~d, not N*d) + per-call lateness + loop-stall detector fed by an always-runnable sibling + late-arrival latency, gated by an in-process load monitor",
-            "N tasks blocked in usleep/nanosleep/poll/select or in recv/send/accept running into the socket timeout must finish within max(2d, d+300 ms+noise) while a computing sibling keeps advancing; the median call returns at most 40 ms late and the loop thread does not sit still between two steps of the runnable sibling (healthy: 0 ms, 0 stalls); a task submitted while the only worker is parked must not wait for the sleeper.",
+            "N tasks blocked in usleep/nanosleep/poll/select or in recv/send/accept running into the socket timeout must finish within max(2d, d+300 ms+noise) while a computing sibling keeps advancing; the median call returns at most 40 ms late and the loop thread does not sit still between two steps of the runnable sibling (healthy: 0 ms, 0 stalls); a gated burst of 600 sleepers (more than the local queue holds) must start within d/2 of each other; a task submitted while the only worker is parked must not wait for the sleeper.",
             "Core entry points, not the dylib interposition layer.", "DESIGN.md §3 C15", "wl-core/loops"),
     "C16": ("fault_enumeration", "fault injection: scripted kernel through the fn_ptr seam, bounded-exhaustive response scripts x buffer shapes x calls x modes, byte-accounting oracle; ASan overlay in thorough",
             "Every script of kernel responses up to length 2 (quick) / 3 (thorough) over {partials around buffer boundaries, full, EAGAIN, EINTR, EOF/EPIPE, ECONNRESET, timeout} x 8 buffer shapes x 10 calls x blocking/non-blocking is executed; return value, errno and byte placement are compared with what the scripted kernel moved. Longer scripts and coroutine context are sampled.",
@@ -81,8 +81,8 @@ CHECKS = {
     "C21": ("exploration", "runtime monitoring: model of outstanding interest vs the kernel's registrations read from /proc/self/fdinfo after every operation",
             "Seeded histories of wait/del/shutdown/close+reuse over 3 sockets, from threads and tasks, 1 and 2 loops; after each step the union of epoll registrations must equal the model. Multi-loop disagreements are known findings.",
             "fdinfo is ground truth; 'outstanding' = added and not yet removed.", "DESIGN.md §3 C21", "wl-core/loops"),
-    "C22": ("exploration", "runtime monitoring under the preemptive build: CPU-time bound on busy coroutines before siblings run, no Syscall->Suspend transition, checksum equality with a plain-thread reference, survival with many scheduling threads",
-            "Busy chains must be preempted (siblings run before 500 ms CPU), a coroutine in a Syscall state must not be suspended, preempted computations must produce reference results; with 4-12 scheduling threads the process dies (known finding).",
+    "C22": ("exploration", "runtime monitoring under the preemptive build: CPU-time bound on busy coroutines before siblings run, no suspension inside a system call (state log + time stamps of an equal-priority sibling), checksum equality with a plain-thread reference, survival with many scheduling threads",
+            "Busy chains must be preempted (siblings run before 500 ms CPU) also after a short system call or an early yield and while a second thread runs coroutines of its own; a coroutine in a Syscall state must not be suspended, also when it enters the call just as its slice ends (150-round race variant with an in-call intrusion detector); preempted computations must produce reference results; with 4-12 scheduling threads the process dies (known finding).",
             "Linux x86-64 SIGURG preemption; cases without an observed preemption are inconclusive.", "DESIGN.md §3 C22", "wl-core/preempt"),
     "C27": ("exploration", "runtime monitoring under the io_uring build: unique-content own-result oracle per call, expected-errno oracle for negative completions, lost-completion detector; uring:after_submit pause hook forces the submit/register window",
             "Concurrent coroutine and thread callers each check that every pwrite/pread/send/recv/mkdirat returns its own byte count, data or errno; a caller still blocked 5 s after the last completion is a lost completion. A receive that waits for late data right after a completed send with a send timeout must not be ended by what that send left behind; a caller whose first call ran into its own SO_RCVTIMEO must still get own results afterwards (known finding: abort).",
